@@ -48,6 +48,9 @@ def harnesses(tier):
     from props import C07
     e = C07.equation_harness(); e.name = 'R6.Equation(const target refused)'        # a literal handed out by a Constant node is const: every assignment form - =, compound, := - must refuse it, or the tree is edited
     hs.append(e)
+    from props import C16
+    b = C16.buildint_harness(); b.name = 'R7.integer_literals_are_built_const'        # the Constant node hands its value out by reference: it must be const, whatever its size
+    hs.append(b)
     return hs
 
 ASSUMPTIONS = ['literal values reach Constant nodes through const_var (recorded in the C16 harnesses); their constness protects them (C07)',
